@@ -1,13 +1,15 @@
 /-
   C17 — XML helper round-trips (ncclient/xml_.py).
   PARTIAL: proved here are the helpers' own logic on trees (namespace replacement, root validation,
-  declaration handling) and — imported from C07 — the escaping discipline for all strings.  lxml's
-  parser and serialiser are the environment: the tree-level round trip `to_ele (to_xml t) ≃ t`, the
-  agreement with an independent parser and `parse_root` vs full parse are established by the
-  correspondence run on generated documents and constructor programs, not by a theorem.
+  declaration handling), the escaping discipline for all strings, and the tree-level round trip
+  `parseDoc (serialize t) = some t` for every well-formed namespace-free tree, where `serialize` /
+  `parseDoc` (Model/XmlDoc.lean) MODEL lxml's serialiser and an XML 1.0 reader and are compared with
+  `to_xml` byte for byte and with expat on every run.  Namespace prefixes, comments, PIs, CDATA, DTDs
+  and `parse_root` vs full parse stay correspondence results on generated documents.
 -/
 import NcVerif.Proofs.Xml
 import NcVerif.Proofs.XmlText
+import NcVerif.Proofs.XmlDoc
 namespace NcVerif.C17
 open NcVerif NcVerif.Xml NcVerif.XmlText
 
@@ -136,6 +138,20 @@ theorem one_declaration (decl s : Str) (hd : declPrefix.isPrefixOf decl = true) 
     (declPrefix.isPrefixOf s = true → addDecl decl s = s) ∧ (declPrefix.isPrefixOf s = false → addDecl decl s = decl ++ s) := by
   exact XmlP.addDecl_spec decl s hd
 
+/-- Tree-level round trip (names, attributes in order, text, tail, child order): reading what the
+    serialiser wrote gives back exactly the tree — for every well-formed namespace-free tree, whatever
+    strings sit in its text and attribute positions. -/
+theorem tree_roundtrip (n : Str) (attrs : List (Str × Str)) (cs : List XmlDoc.XNode)
+    (hw : XmlDoc.wf (.elem n attrs cs) = true) :
+    XmlDoc.parseDoc (XmlDoc.serialize (.elem n attrs cs)) = some (.elem n attrs cs) :=
+  XmlDocP.parseDoc_serialize n attrs cs hw
+
+/-- Serialise, parse, serialise again: the second serialisation equals the first (what `to_xml ∘ to_ele ∘ to_xml` gives). -/
+theorem serialise_idempotent (n : Str) (attrs : List (Str × Str)) (cs : List XmlDoc.XNode)
+    (hw : XmlDoc.wf (.elem n attrs cs) = true) :
+    (XmlDoc.parseDoc (XmlDoc.serialize (.elem n attrs cs))).map XmlDoc.serialize = some (XmlDoc.serialize (.elem n attrs cs)) := by
+  rw [XmlDocP.parseDoc_serialize n attrs cs hw]; rfl
+
 /-- Character data written by the serialiser is read back unaltered by any XML parser (from C07). -/
 theorem chardata_roundtrip (s : Str) : parseText (escapeText s) = some s ∧ parseAttr (escapeAttr s) = some s :=
   ⟨XmlTextP.parseText_escapeText s, XmlTextP.parseAttr_escapeAttr s⟩
@@ -148,5 +164,9 @@ example : replaceNs (some "urn:old".toList) (some "urn:new".toList) doc =
     .elem (q "urn:new" "a") [(q "" "m", "w".toList), (q "urn:new" "k", "v".toList)]
       [.text "t".toList, .elem (q "urn:other" "b") [] [], .comment "c".toList, .elem (q "urn:new" "c") [] []] := by rfl
 example : validated [q "urn:x" "config", q "" "config"] [[q "" "type", q "" "kind"]] (.elem (q "" "config") [(q "" "kind", [])] []) = true := by decide
+
+example : XmlDoc.wf (.elem "a".toList [("k".toList, "<&\"".toList)] [.text "x\r".toList, .elem "b".toList [] [], .text "]]>".toList]) = true := by decide +kernel
+example : XmlDoc.serialize (.elem "a".toList [("k".toList, "<&\"".toList)] [.text "x\r".toList, .elem "b".toList [] [], .text "]]>".toList])
+    = "<a k=\"&lt;&amp;&quot;\">x&#13;<b/>]]&gt;</a>".toList := by decide +kernel
 
 end NcVerif.C17
